@@ -74,7 +74,7 @@ func c13Sizes(tier string) (units, per, random, docs int) {
 	if tier == "thorough" {
 		return 3000, 16, 6, 24
 	}
-	return 128, 8, 3, 16
+	return 320, 8, 3, 16
 }
 
 type c13Case struct {
